@@ -68,7 +68,7 @@ def history(rng, w, n):
 
 
 def run(ctx):
-    ctx.proof_leg(TARGETS, PINS, k_targets=exe.K_TARGETS + ["model/Signals.vo"])
+    ctx.proof_leg(TARGETS, PINS, k_targets=exe.K_TARGETS + ["model/Signals.vo", "proofs/PropdepProofs.vo", "model/TirCase.vo", "gen/GenE0.vo"])
     vh = ctx.need_harness()
     rng = ctx.rng
     os.environ["VERIF_EXTRA_METATYPES"] = cxx.write_e0w()
@@ -105,6 +105,28 @@ def run(ctx):
         if got != must:
             ctx.violation("%s: a binding reading %s is %s" % (src, "a non-constant property without notify signal" if must else "a CONSTANT property", "accepted (it would go stale)" if must else "rejected"),
                           {"qml": cxx.document([("tgt", pn, src)]), "impl_output": r.get("diags")})
+    # ---- the coverage checker (proofs/PropdepProofs.v covered_b) on the implementation's OWN dependency-analysed IR
+    from . import tircheck, tirtok
+    pool = tircheck.Pool(ctx)
+    pool.add_generated(3000 if ctx.tier == "thorough" else 500, mutate_every=0, max_depth=4)
+    pool.add([(p, "total") for p, t, src in acc])
+    pool.run()
+    cterms, cidx = [], []
+    for i, r in enumerate(pool.impl):
+        if isinstance(r, dict) and r.get("ok") and r.get("dep_code") and not r.get("dep_diags"):
+            cterms.append((tirtok.q_code(r["dep_code"]), "true"))
+            cidx.append(i)
+    chdr = tircheck.HEADER.replace("model.TirCase gen.GenE0.", "model.TirCase proofs.PropdepProofs gen.GenE0.")
+    if ctx.model_ok and cterms:
+        ctx.k_extra = ["proofs/PropdepProofs.vo"]
+        unc = C.coq_eval_mismatches("c02cov", chdr, cterms, "Bool.eqb", "(code_covered_b E0)", "code * bool", shard_size=60, scope="nat_scope")
+        ctx.coverage["ir_coverage_checked"] = len(cterms)
+        ctx.coverage["ir_coverage_failures"] = len(unc)
+        for j in unc[:5]:
+            i = cidx[j]
+            ctx.violation("the dependency-analysed IR of an accepted program has a property read that is neither a static dependency nor immediately preceded by its observation: %s" % pool.sources[i][:300],
+                          {"qml": pool.sources[i], "case": {"program": pool.programs[i][0]}, "impl_output": pool.impl[i]["dep_code"],
+                           "theorem_or_correspondence": "C02_dependency_complete_ir (checker covered_b on the implementation's IR)"})
     work = os.path.join(C.BUILD, "c02")
     shutil.rmtree(work, ignore_errors=True)
     chunks = [acc[i:i + 8] for i in range(0, len(acc), 8)]
